@@ -5,6 +5,7 @@ import (
 	"fmt"
 	"math/bits"
 	"strings"
+	"sync"
 )
 
 // Sort: 0 = Bool, n>0 = bit-vector of width n (n <= 64).
@@ -81,7 +82,9 @@ type Table struct {
 }
 
 // foldTable is used by Eval for constant folding only (results are constants, never retained).
-var foldTable = NewTable()
+var foldTable = NewTable() // NOTE: Eval uses w.T-independent folding; guarded by foldMu
+
+var foldMu sync.Mutex
 
 func NewTable() *Table {
 	t := &Table{m: map[termKey]*Term{}}
@@ -867,9 +870,13 @@ func (tb *Table) Eval(t *Term, env map[string]uint64, memo map[*Term]uint64) uin
 	case OpSExt:
 		r = uint64(sval(tb.Eval(t.A[0], env, memo), t.A[0].Sort)) & mask(t.Sort)
 	default:
-		a := foldTable.Const(t.A[0].Sort, tb.Eval(t.A[0], env, memo))
-		b := foldTable.Const(t.A[1].Sort, tb.Eval(t.A[1], env, memo))
+		x := tb.Eval(t.A[0], env, memo)
+		y := tb.Eval(t.A[1], env, memo)
+		foldMu.Lock()
+		a := foldTable.Const(t.A[0].Sort, x)
+		b := foldTable.Const(t.A[1].Sort, y)
 		r = foldTable.Bin(t.Op, a, b).Val
+		foldMu.Unlock()
 	}
 	memo[t] = r
 	return r
